@@ -10,6 +10,7 @@ and by vf.c06_spec.match_spec (rules S1..S10 of DESIGN.md).  Verdict (DESIGN "st
 """
 from __future__ import annotations
 
+import copy
 import itertools
 
 from . import c06_gen as gen
@@ -70,7 +71,7 @@ def thresholds(tier):
         "triples": 400000, "impl_match": 20000, "spec_strict_nonempty": 20000, "lax_only": 20, "removable_blocked": 2000,
         "commute_evals": 20000, "commute_match_only_swapped": 200, "or_backtracking_pattern_matches": 500,
         "or_dispatch_pattern_matches": 20, "multi_output_node_matches": 100, "const_matches": 200, "constmatrix_evaluations": 1000, "constmatrix_impl_match": 80, "attr_matches": 100,
-        "none_input_matches": 100, "hosts": 500, "patterns": 2000, "tri_impl_match": 100,
+        "none_input_matches": 100, "hosts": 500, "patterns": 2000, "tri_impl_match": 100, "hist_impl_match_after_edit": 200, "hist_edits": 100,
         "anchor:onnxscript.rewriter._matcher:_valid_to_replace": 5000,
         "anchor:onnxscript.rewriter._matcher:SimplePatternMatcher._multi_match": 1000,
         "anchor:onnxscript.rewriter._basics:MatchResult.merge_current_match": 1000,
@@ -120,6 +121,8 @@ def cases(tier, seed):
             out.append({"kind": "exh", "name": name, "pu": list(pu), "hu": list(hu), "chunk": i, "n": n, "seed": seed,
                         "pshard": name in ("t-b2", "t-attr")})
     out.append({"kind": "tri", "seed": seed})
+    for c in range(8 if tier == "quick" else 64):
+        out.append({"kind": "hist", "seed": seed, "chunk": c, "n": 6})
     out.append({"kind": "constmatrix", "seed": seed})
     for i0 in range(0, N_RANDOM[tier], RANDOM_PER_SPEC):
         out.append({"kind": "rand", "seed": seed, "i0": i0, "n": RANDOM_PER_SPEC})
@@ -307,6 +310,44 @@ def _fmt_inst(inst):
 _REORDER_CACHE: dict = {}
 
 
+def _earlier_alternative_matches_locally(P, host, root, removable, commute, inst, ch):
+    """For the strict instance `inst` found with OR choice `ch`: is there an OR site whose chosen alternative a > 0 has an
+    earlier alternative k < a that, taken by itself (fresh bindings), matches the host value at that site?"""
+    G = host.G
+    prod, cons = host.index
+    variants = (spec.commute_variants(P) or [P]) if commute else [P]
+    for Q in variants:
+        sw = Q.get("_swap", ())
+        choice = {(j, (1 - i) if j in sw else i): a for (j, i), a in ch.items()}
+        if set(choice) != set(spec.or_sites(Q)):
+            continue
+        for assign in spec._assignments(Q, G, prod, choice, root):
+            try:
+                if spec._check(Q, G, prod, cons, choice, assign, removable) != inst:
+                    continue
+            except spec._No:
+                continue
+            for (j, i), a in choice.items():
+                if a == 0 or j not in assign:
+                    continue
+                gin = G["nodes"][assign[j]]["in"]
+                actual = gin[i] if i < len(gin) and gin[i] else None
+                for k in range(a):
+                    alt = Q["nodes"][j]["in"][i][1][k]
+                    if alt[0] == "v":
+                        if actual is not None or alt[2]:
+                            return True
+                    elif alt[0] == "c":
+                        if actual is not None and actual in G["inits"]:
+                            return True
+                    elif alt[0] == "o" and actual is not None and actual in prod and prod[actual][1] == alt[2]:
+                        sub = {"nodes": Q["nodes"], "outs": [["o", alt[1], alt[2]]]}
+                        if spec.match_one(sub, G, prod[actual][0], False, host.index)[1]:
+                            return True
+            return False
+    return True     # could not reconstruct the witness: stay with the listed mechanism
+
+
 def classify(e, kind, host, root, removable, commute, impl, strict, lax):
     """Mechanism key of a deviation: coarse predicates over the witness + one diagnosis experiment for OR patterns."""
     f = e.feats
@@ -355,7 +396,10 @@ def classify(e, kind, host, root, removable, commute, impl, strict, lax):
                 continue
             r2, err = impl_run(e2, host, root, removable, commute)
             if r2:
-                mech = "or_greedy"
+                # order dependence.  The listed mechanism (or_greedy) is commitment to an EARLIER alternative that matched
+                # locally; if no earlier alternative matches the host value even in isolation, the witness alternative was
+                # simply never tried - a different mechanism
+                mech = "or_greedy" if _earlier_alternative_matches_locally(e.P, host, root, removable, commute, inst, ch) else "or_alternative_not_tried"
             break
     elif kind == "unsound" and "or_bt" in f:
         # experiment: the same pattern with every OR replaced by one of its alternatives, for every choice.  If the real
@@ -636,6 +680,97 @@ def run_tri(sp):
             "data": {"sigs": sorted(sigs), "viol_counts": nv}, "sample": None}
 
 
+def _mutate_host(host, G2, k):
+    """Edit host's ir graph IN PLACE so that it becomes G2, which differs from host.G in node k only (operator and/or inputs;
+    same output names, same number of nodes): the new node is inserted where the old one was, takes over its uses and its
+    place among the graph outputs, the old one is removed.  The maps of the Host are updated accordingly."""
+    from onnxscript import ir
+
+    g = host.model.graph
+    old = host.nodes[k]
+    spec_n = G2["nodes"][k]
+    byname = {nm: v for v, nm in ((v, host.vname[id(v)]) for n in host.nodes for v in n.outputs)}
+    for v in list(g.inputs) + list(g.initializers.values()):
+        byname[v.name] = v
+    new = ir.Node(spec_n.get("domain", ""), spec_n["op"], [byname[i] for i in spec_n["in"]], num_outputs=len(old.outputs))
+    for ov, nv in zip(old.outputs, new.outputs):
+        nv.name, nv.type, nv.shape = ov.name, ov.type, ov.shape
+    g.insert_after(old, new)
+    for ov, nv in zip(old.outputs, new.outputs):
+        for j, o in enumerate(g.outputs):
+            if o is ov:
+                g.outputs[j] = nv
+        ov.replace_all_uses_with(nv)
+    g.remove(old, safe=True)
+    host.nodes[k] = new
+    host.node_idx = {id(n): i for i, n in enumerate(host.nodes)}
+    for nv in new.outputs:
+        host.vname[id(nv)] = nv.name
+    host.G = G2
+    host.index = spec._index(G2)
+
+
+def run_hist(sp):
+    """History family: ONE compiled pattern object (and its commuted variants) is matched at every root of a host, the host's
+    ir graph is then edited IN PLACE by a one-for-one node replacement (node count unchanged - what a rewrite by another
+    rule leaves behind), and the same pattern object is matched again at every root; this is repeated along a chain of edits.
+    Every evaluation is judged against the specification of the graph as it is at that moment, so a matcher that carries
+    anything over from an earlier call (candidate indexes, cached bindings) shows as unsound / incomplete here while the
+    history-free families stay silent."""
+    N, V = gen.N, gen.V
+    forms = [lambda a, b: N("Neg", [V(a)]), lambda a, b: N("Abs", [V(a)]), lambda a, b: N("Add", [V(a), V(b)]),
+             lambda a, b: N("Sub", [V(a), V(b)])]
+    pats = []
+    for i, j in itertools.product(range(len(forms)), repeat=2):
+        for names in ((("x", "y"), ("x", "y")), (("x", "y"), ("z", "w")), (("x", "y"), ("y", "x"))):
+            pats.append(compile_pattern({"nodes": [forms[i](*names[0]), forms[j](*names[1])], "outs": [["o", 0, 0], ["o", 1, 0]]}))
+    # single-output patterns too (the history must not matter for them either)
+    for i in range(len(forms)):
+        pats.append(compile_pattern({"nodes": [forms[i]("x", "y"), N("Neg", [["o", 0, 0]])], "outs": [["o", 1, 0]]}))
+    for idx, e in enumerate(pats):
+        e.idx = idx
+    ops = ["Neg", "Abs", "Add", "Sub"]
+
+    def node(op, n, leaves):
+        ins = [leaves[n % 2]] if op in ("Neg", "Abs") else [leaves[n % 2], leaves[(n + 1) % 2]]
+        return {"op": op, "in": ins, "out": [f"t{n}_0"], "attrs": {}}
+
+    ev, viol, sigs = {"hist_patterns": len(pats)}, [], set()
+    rng = common.rng(PID, "hist", sp["seed"], sp["chunk"])
+    for h in range(sp["n"]):
+        leaves = rng.choice([("a", "b"), ("b", "a"), ("a", "a")])
+        cur_ops = [rng.choice(ops) for _ in range(3)]
+        outs = [f"t{n}_0" for n in range(3)] if rng.random() < 0.7 else ["t0_0", "t2_0"]
+        G = {"inputs": ["a", "b"], "inits": {}, "nodes": [node(o, n, leaves) for n, o in enumerate(cur_ops)], "outputs": outs}
+        host = Host(G)
+        ev["hist_hosts"] = ev.get("hist_hosts", 0) + 1
+        for step in range(5):
+            for e in pats:
+                if e.pat is None:
+                    continue
+                for root in range(3):
+                    if (host.G["nodes"][root]["op"], "") != e.root_op:
+                        continue
+                    for commute in _modes(e):
+                        for removable in (False, True):
+                            im, lx = judge(e, host, root, removable, commute, ev, viol, sigs)
+                            if im and step:
+                                ev["hist_impl_match_after_edit"] = ev.get("hist_impl_match_after_edit", 0) + 1
+            # one-for-one edit
+            k = rng.randrange(3)
+            new_op = rng.choice([o for o in ops if o != host.G["nodes"][k]["op"]])
+            G2 = copy.deepcopy(host.G)
+            G2["nodes"][k] = node(new_op, k, leaves)
+            _mutate_host(host, G2, k)
+            ev["hist_edits"] = ev.get("hist_edits", 0) + 1
+    nv = {}
+    for v in viol:
+        nv[v["key"]] = nv.get(v["key"], 0) + 1
+    return {"status": "ok", "viol": [v for v in viol if v["what"]], "events": ev, "nontrivial": True, "sig": None,
+            "data": {"sigs": sorted(sigs), "viol_counts": nv}, "sample": None}
+
+
+
 PATTERN_CONSTANTS = [1.0, 2.0, 0.5, 1.5, 0, 1, -1.0, 1.000001, 1.00002, 0.1, [1.0], [0.5, 1.5], [1, 2], [0, 1]]
 HOST_CONSTANTS = {
     "float32": [1.0, 2.0, 0.5, 1.5, 0.0, -1.0, 1.000001, 1.00002, 0.1, 0.1001, [1.0], [0.5, 1.5], [1.0, 2.0], [0.0, 1.0]],
@@ -693,7 +828,7 @@ def run_case(sp):
         r = run_constmatrix(sp)
         r["events"]["cpu_ms"] = int((time.process_time() - t0) * 1000)
         return r
-    r = run_exh(sp) if sp["kind"] == "exh" else (run_tri(sp) if sp["kind"] == "tri" else run_rand(sp))
+    r = run_exh(sp) if sp["kind"] == "exh" else (run_tri(sp) if sp["kind"] == "tri" else (run_hist(sp) if sp["kind"] == "hist" else run_rand(sp)))
     r["events"]["cpu_ms"] = int((time.process_time() - t0) * 1000)
     return r
 
